@@ -121,12 +121,15 @@ func run() int {
 		return 2
 	}
 	outDir := filepath.Join(vd, "out", id)
-	_ = os.RemoveAll(outDir)
-	_ = os.MkdirAll(outDir, 0o755)
-
 	if replay != "" {
+		// a replay never touches out/<id>: the file being replayed usually lives there
+		outDir = filepath.Join(vd, "out", id+"-replay")
+		_ = os.RemoveAll(outDir)
+		_ = os.MkdirAll(outDir, 0o755)
 		return runReplay(id, testBin, snap, replay, outDir)
 	}
+	_ = os.RemoveAll(outDir)
+	_ = os.MkdirAll(outDir, 0o755)
 
 	shards, checks, budget := cfg.QuickShards, cfg.QuickChecks, cfg.QuickBudget
 	if tier == "thorough" {
@@ -288,7 +291,13 @@ func run() int {
 		cov["samples"] = []any{}
 	}
 	e := &ev.Evidence{PropertyID: id, Tier: tier, Seed: seed, Level: cfg.Level, Coverage: cov, Assumptions: cfg.Assumptions, WallS: wall, Violations: len(violations)}
-	if err := ev.WriteEvidence(filepath.Join(vd, "evidence", id+".json"), e); err != nil {
+	evDir := filepath.Join(vd, "evidence")
+	if r := os.Getenv("VERIF_REPO"); r != "" && r != "/repo" {
+		// development runs against a patched scratch tree never overwrite the evidence of /repo
+		evDir = filepath.Join(vd, "out", "evidence-other-tree")
+		_ = os.MkdirAll(evDir, 0o755)
+	}
+	if err := ev.WriteEvidence(filepath.Join(evDir, id+".json"), e); err != nil {
 		fmt.Fprintf(os.Stderr, "cannot write evidence: %v\n", err)
 		return 2
 	}
